@@ -89,4 +89,16 @@ def maskPixels (f : List Tree) (s : Sel) : List Nat :=
 def scatterRows (f : List Tree) (rowIds : List Nat) (s : Sel) : List Nat :=
   (highlighted f s).filterMap fun i => if rowIds.contains i then some (rowIds.idxOf i) else none
 
+/-- index of the first maximal element (`np.argmax`) -/
+def argmaxFirst : List Int → Nat
+  | [] => 0
+  | x :: xs => if xs.all (fun y => decide (y ≤ x)) then 0 else argmaxFirst xs + 1
+
+/-- `line_picker`: `ind` are the indices of the lines hit, `lineStruct` maps a line index to its
+    structure (`event.artist.structures`), `peak` gives the peak value of a structure; the structure
+    of the first hit line with the highest peak is selected -/
+def pickLine (lineStruct : List Nat) (peak : Nat → Int) (ind : List Nat) : Option Nat :=
+  if ind = [] then none
+  else some (lineStruct.getD (ind.getD (argmaxFirst (ind.map fun i => peak (lineStruct.getD i 0))) 0) 0)
+
 end Hub
